@@ -109,3 +109,77 @@ Definition nthb (l : list bool) (i : nat) : bool := nth i l true.
 Definition mem_nat (l : list nat) (x : nat) : bool := existsb (Nat.eqb x) l.
 Definition mem_edge (l : list (nat * nat)) (a b : nat) : bool :=
   existsb (fun e => Nat.eqb (fst e) a && Nat.eqb (snd e) b) l.
+
+(* ---- atomicity of composite operations: ONE outermost lock section ----------------------------
+   A trace is quiet when it contains no lock event and no store.  [span_ok] accepts the traces in
+   which every lock event and every store lies inside one outermost section: phase 0 = before the
+   section (quiet), phase 1 = inside it at depth d > 0, phase 2 = after it (quiet). *)
+Fixpoint quiet (t : list event) : bool :=
+  match t with
+  | [] => true
+  | EAcq _ :: _ | ERel _ :: _ | EPoke _ :: _ => false
+  | _ :: r => quiet r
+  end.
+
+Fixpoint span_ok (phase d : nat) (t : list event) : bool :=
+  match t with
+  | [] => true
+  | EAcq _ :: r => match phase with
+                   | 0 => span_ok 1 1 r
+                   | 1 => span_ok 1 (S d) r
+                   | _ => false
+                   end
+  | ERel _ :: r => match phase with
+                   | 1 => match d with
+                          | 0 => false
+                          | 1 => span_ok 2 0 r
+                          | S d' => span_ok 1 d' r
+                          end
+                   | _ => false
+                   end
+  | EPoke _ :: r => match phase with 1 => span_ok 1 d r | _ => false end
+  | _ :: r => span_ok phase d r
+  end.
+
+(* The top level of a function body taken in program order, every statement at most once
+   (skipped by a branch, run, or cut short by return / exception); blocks nested inside a
+   statement keep the any-order-any-number semantics [exec].  gen_fatskel.py refuses a function
+   listed in atomic_entries whose lock sections sit inside a loop, which is what makes this
+   reading of the top level sound. *)
+Inductive exec_seq (prog : list (list stmt)) (env : nat -> bool) (fi : nat) : list stmt -> list event -> Prop :=
+| sq_stop items : exec_seq prog env fi items []
+| sq_skip s r t : exec_seq prog env fi r t -> exec_seq prog env fi (s :: r) t
+| sq_run s r t1 t2 : exec1 prog env fi s t1 -> exec_seq prog env fi r t2 -> exec_seq prog env fi (s :: r) (t1 ++ t2).
+
+Section Quiet.
+Variable q : nat -> bool.                (* summary: the function is quiet *)
+Variable env : nat -> bool.
+
+Fixpoint quiet_stmt (s : stmt) : bool :=
+  match s with
+  | SPoke _ => false
+  | SCall tg => forallb q tg
+  | SYield => true
+  | SWith _ _ => false
+  | SGuard g body => if env g then forallb quiet_stmt body else true
+  end.
+
+Definition quiet_fn (fi : nat) (body : list stmt) : bool := negb (q fi) || forallb quiet_stmt body.
+
+Fixpoint quiet_prog_from (i : nat) (prog : list (list stmt)) : bool :=
+  match prog with
+  | [] => true
+  | b :: r => quiet_fn i b && quiet_prog_from (S i) r
+  end.
+
+(* quiet statements, at most one with-block, quiet statements *)
+Fixpoint one_span_items (seen : bool) (items : list stmt) : bool :=
+  match items with
+  | [] => true
+  | s :: r => if quiet_stmt s then one_span_items seen r
+              else match s with
+                   | SWith _ _ => negb seen && one_span_items true r
+                   | _ => false
+                   end
+  end.
+End Quiet.
